@@ -37,6 +37,9 @@ def build():
     s.x = cc.IntField()
     s.y = cc.IntField()
     s.fv = cc.IntField()
+    s.lo = cc.IntField()
+    s.hi = cc.IntField()
+    s.free = cc.Schema(dynamic=True)        # a free-form section: no declared fields, only a validator
     s.tags = cc.ListField(cc.StringField(required=True, transform_strip=True))       # required applies to what is stored: the stripped text
     s.labels = cc.DictField(cc.StringField(), cc.StringField(required=True, transform_strip="-"))
     s.sub.enabled = cc.FeatureFlagField(default=True)
@@ -80,6 +83,20 @@ def build():
     def v_t(cfg):
         LOG.append(("t", id(cfg), cfg.r))
 
+    @cc.validator(s.lo)
+    def v_lo(cfg, value):
+        # a field validator that looks at a sibling: it can only fail once the sibling has a value
+        LOG.append(("lo", id(cfg), value))
+        if value is not None and cfg.hi is not None and value > cfg.hi:
+            raise ValueError("lo must not exceed hi")
+        return value
+
+    @cc.validator(s.free)
+    def v_free(cfg):
+        LOG.append(("free", id(cfg), getattr(cfg, "forbidden", None)))
+        if getattr(cfg, "forbidden", None):
+            raise ValueError("forbidden is set")
+
     @cc.validator(s.fv)
     def v_fv(cfg, value):
         LOG.append(("fv", id(cfg), value))
@@ -101,7 +118,7 @@ def fresh_sub():
 
 
 def fresh():
-    return {"flag": True, "rs": None, "ri": 5, "re": "", "x": None, "y": None, "fv": None, "sub": fresh_sub(), "items": None, "t": {"r": "t"}, "tags": None, "labels": None}
+    return {"flag": True, "rs": None, "ri": 5, "re": "", "x": None, "y": None, "fv": None, "sub": fresh_sub(), "items": None, "t": {"r": "t"}, "tags": None, "labels": None, "lo": None, "hi": None, "free": {}}
 
 
 REQUIRED = {"": ["rs", "ri", "re"], "sub": ["rl", "rd", "rle"], "sub.deep": ["r"], "t": ["r"], "item": ["r"]}
@@ -158,6 +175,10 @@ def apply_tree(state, tree):
             st[k] = [x.strip() for x in v] if k == "tags" else {a: b.strip("-") for a, b in v.items()}
         elif k == "fv" and v is not None and v % 2:
             rej.append(("", "fv", v))      # the field validator rejects the value when it is set
+        elif k == "lo" and v is not None and st["hi"] is not None and v > st["hi"]:
+            rej.append(("", "lo", v))      # the sibling is already there: rejected when it is set
+        elif k == "free":
+            st["free"] = dict(v)
         else:
             st[k] = v
     return st, rej
@@ -170,7 +191,8 @@ def node_status(st, tree_flags_for_rejection=None):
     deep_self = bool(st["sub"]["deep"]["on"])
     sub = "off" if not sub_self else ("on" if root == "on" else "shadowed")
     deep = "off" if not deep_self else ("on" if sub == "on" else "shadowed")
-    return {"": root, "sub": sub, "sub.deep": deep, "t": "on" if root == "on" else "shadowed", "item": "on" if root == "on" else "shadowed"}
+    return {"": root, "sub": sub, "sub.deep": deep, "t": "on" if root == "on" else "shadowed", "item": "on" if root == "on" else "shadowed",
+            "free": "on" if root == "on" else "shadowed"}
 
 
 def violations(st, new_items=True):
@@ -183,6 +205,10 @@ def violations(st, new_items=True):
         out.append(("", "validator:x<y"))
     if st["fv"] is not None and st["fv"] % 2:
         out.append(("", "field-validator:fv"))
+    if st["lo"] is not None and st["hi"] is not None and st["lo"] > st["hi"]:
+        out.append(("", "field-validator:lo<=hi"))
+    if st["free"].get("forbidden"):
+        out.append(("free", "validator:free"))
     for k in REQUIRED["sub"]:
         if st["sub"][k] is None or st["sub"][k] in EMPTY:
             out.append(("sub", k))
@@ -238,7 +264,7 @@ def read_state(cfg):
     items = None
     if cfg.items is not None:
         items = [{"r": it.r, "n": it.n} for it in cfg.items]
-    return {"tags": plain(cfg.tags), "labels": plain(cfg.labels), "flag": cfg.flag, "rs": cfg.rs, "ri": cfg.ri, "re": cfg.re, "x": cfg.x, "y": cfg.y, "fv": cfg.fv,
+    return {"lo": cfg.lo, "hi": cfg.hi, "free": {k: v for k, v in cfg.free}, "tags": plain(cfg.tags), "labels": plain(cfg.labels), "flag": cfg.flag, "rs": cfg.rs, "ri": cfg.ri, "re": cfg.re, "x": cfg.x, "y": cfg.y, "fv": cfg.fv,
             "sub": {"enabled": cfg.sub.enabled, "rl": plain(cfg.sub.rl), "rd": plain(cfg.sub.rd), "rle": plain(cfg.sub.rle), "a": cfg.sub.a,
                     "deep": {"on": cfg.sub.deep.on, "r": cfg.sub.deep.r}},
             "items": items, "t": {"r": cfg.t.r}}
@@ -277,6 +303,10 @@ def side_inputs(tier):
         {"items": []},
         {"t": {"r": None}},
         {"items": [{"r": "", "n": 1}]},
+        {"lo": 10, "hi": 5},
+        {"hi": 5, "lo": 10},
+        {"lo": 1, "hi": 5, "free": {"anything": 1}},
+        {"free": {"forbidden": 1}},
         {"tags": [" a ", "  "]},
         {"tags": [" a "], "labels": {"k": "--"}},
         {"tags": ["b"], "labels": {"k": "-v-"}},
@@ -293,7 +323,7 @@ def make_tree(leaves, flags, side):
     for k in ("rs", "ri", "re"):
         if leaves[k] is not ABSENT:
             t[k] = leaves[k]
-    for k in ("x", "y", "fv", "tags", "labels"):
+    for k in ("x", "y", "fv", "tags", "labels", "lo", "hi", "free"):
         if k in side:
             t[k] = copy.deepcopy(side[k])
     sub = {}
@@ -462,6 +492,8 @@ def check_load(ctx, job, schema, tree, prior, route, key):
                 need.append("sub")
                 if status["sub.deep"] == "on":
                     need.append("deep")
+        if status[""] == "on":
+            need.append("free")
         for nname in need:
             if nname not in ran:
                 bad("validator-not-run|" + nname, "returned without running the %s validator (ran: %s)" % (nname, sorted(ran)))
